@@ -830,6 +830,12 @@ impl Inner {
         let id = frame.stream_id();
         let promised_id = frame.promised_id();
 
+        // A client cannot push, whatever state the referenced stream is in.
+        if self.counts.peer().is_server() {
+            proto_err!(conn: "recv_push_promise: a server received PUSH_PROMISE");
+            return Err(Error::library_go_away(Reason::PROTOCOL_ERROR));
+        }
+
         // First, ensure that the initiating stream is still in a valid state.
         let parent_key = match self.store.find_mut(&id) {
             Some(stream) => {
